@@ -276,6 +276,14 @@ func (w *World) exec(i int, s *Step) {
 				p.startKeepalives(p.conn)
 			}
 		}
+	case "dial_refuse":
+		// connections the DUT dials to this neighbour are refused from now on (or accepted again)
+		if p != nil {
+			p.RefuseDial = s.On
+			if s.On {
+				e.fault("dial_refused")
+			}
+		}
 	case "fail_write":
 		if p != nil && p.conn != nil {
 			p.conn.failWrites(s.N)
